@@ -536,7 +536,64 @@ def r14(ctx):
         ctx.ob('C05.R14', fn, x, ok, 'null output %s' % fn.key(x), 'every path to it looks the raw value up in the list: %s' % ok)
 
 
+def r18(ctx):
+    ctx.rule('C05.R18', 'a zero byte of a date means "missing" only for types whose valid values cannot be zero: wherever '
+             'DateTimeDataType::readSymbols treats a byte equal to 0 as missing, the test is tied to the absence of the REZ flag '
+             '(the flag of DAY, whose day count has legitimate zero bytes) - all such tests use that one flag; tied to another '
+             'flag, every DAY value with a zero low byte prints "-." in front of the date', minimum=2)
+    fb = ctx.fb
+    fn = fb.fn('ebusd::DateTimeDataType::readSymbols')
+    ctx.touch(fn)
+    rez = facts.macro_values(['lib/ebus/datatype.h'], ['REZ']).get('REZ')
+    if rez is None:
+        raise AnalysisBroken('C05.R18: the flag REZ was not found in datatype.h')
+    n = 0
+    for x, v in sorted(fn.nodes.items()):
+        if v['k'] != 'BinaryOperator' or v.get('op') != '&&':
+            continue
+        r = fn.nodes[fn.strip(v['rhs'], casts=True)]
+        if not (r.get('k') == 'BinaryOperator' and r.get('op') == '==' and fn.val(r['rhs']) == 0 and
+                fn.nodes[fn.strip(r['lhs'], casts=True)].get('k') == 'DeclRefExpr'):
+            continue
+        l = fn.nodes[fn.strip(v['lhs'], casts=True)]
+        if not (l.get('k') == 'UnaryOperator' and l.get('op') == '!'):
+            continue
+        call = fn.nodes[fn.strip(l['ch'][0], casts=True)]
+        if not (call.get('callee') or '').endswith('::hasFlag') or not call.get('args'):
+            continue
+        n += 1
+        flag = fn.val(call['args'][0])
+        ctx.ob('C05.R18', fn, x, flag == rez, 'zero byte taken as missing (%s)' % fn.key(x)[:60], 'tied to the REZ flag (%#x): %s (flag %s)' % (rez, flag == rez, hex(flag) if flag is not None else flag))
+    if n < 2:
+        raise AnalysisBroken('C05.R18: only %d "zero means missing" tests found' % n)
+
+
+def r19(ctx):
+    ctx.rule('C05.R19', 'a divisor of 1 (like 0) means "keep the divisor of the type": in NumberDataType::derive(divisor, bitCount) '
+             'every statement that combines the requested divisor with the one the type already has (divisor *= ...) is '
+             'reached only with divisor != 1 - DataField::create derives the divisor first and passes 1 afterwards, and a '
+             'combination with 1 flips the sign of a reciprocal divisor (uin,-10 with a range decodes 380 as 3.8)', minimum=2)
+    fb = ctx.fb
+    fns = [f for f in fb.fns('ebusd::NumberDataType::derive') if len(f.params) == 3]
+    if not fns:
+        raise AnalysisBroken('C05.R19: NumberDataType::derive(divisor, bitCount, derived) not found')
+    fn = fns[0]
+    ctx.touch(fn)
+    dv = fn.P(0)
+    n = 0
+    for nid, d, rhs, op, lhs in fn.assignments():
+        if not d or d.split(':')[-1] != dv or op not in ('*=', '/=') and not (op == '=' and rhs is not None and ('*' in fn.key(rhs) or '/' in fn.key(rhs))):
+            continue
+        n += 1
+        ok = fn.needs_one_of(nid, [('(%s == #1)' % dv, False), ('(%s <= #1)' % dv, False), ('(%s < #0)' % dv, True), ('(%s < #1)' % dv, True)])
+        ctx.ob('C05.R19', fn, nid, ok, 'divisors combined in derive', 'reached only with a requested divisor other than 1: %s' % ok)
+    if n < 2:
+        raise AnalysisBroken('C05.R19: only %d combinations of divisors found in derive' % n)
+
+
 def run(ctx):
+    r18(ctx)
+    r19(ctx)
     import rules.common as _cm
     ctx.rule('C05.R15', 'an accessor hands out what the member holds: every member function of the eBUS library classes (data types, fields, messages, symbols) that only returns an integer data member has a return type at least as wide as the member and no narrowing cast on the way - getReplacement() truncated to a byte makes a value list on a 16 bit type print its replacement pattern as a number and an ordinary value as null', minimum=20)
     ctx.rule('C05.R16', 'a byte is scaled in a domain that holds the result: in the data type and field sources every multiplication or shift of a value read from an 8 bit unsigned variable that the language evaluates in signed int has a constant factor that keeps 255 * factor below 2^31 (or the arithmetic is unsigned / 64 bit); the fourth byte of a little-endian value scaled as byte * (1 << 8*i) overflows for bytes >= 0x80 and the accumulated value is sign-extended garbage', minimum=3)
